@@ -20,7 +20,7 @@ EXPLANATION = (
     " (R2, path form) in all six write_bins bodies no success exit is reachable once the absence edges of every test of `metadata` and the write_metadata call are removed: the pseudo-bin is written on every path on which metadata is present; (R6) reg2bin and reg2bins use the same coordinate convention (exactly one `- 1` on start and on end before the shifts); (R7) append-buffer discipline of the text index readers (crai, fai, tabix names): the rule that reports the genuine defect F14 (crai read_index), repaired in /repo."
     " (R8) optimize_chunks prunes by a per-chunk test of that chunk's end, never by a prefix cut or binary search over chunk ends in a list ordered by start."
     " (R9) Bin::add_chunk builds the merged chunk's end as the maximum of both ends (genuine defect F24, repaired)."
-    " (R10) no index reader takes a field from a single raw read() (shared with C12.R1 / C13.R4).")
+    " (R10) no index reader takes a field from a single raw read() (shared with C12.R1 / C13.R4). (R11) the linear index is filled (update) and consulted (min_offset) with the same window function of a 1-based position, (p - 1) / 2^14.")
 ASSUMPTIONS = ["field layout (order and widths) of the index files is pinned by the unit tests (one literal per field encoder/decoder)"]
 NOT_DECIDED = ["reg2bin ∈ reg2bins containment and optimize_chunks coverage for every geometry (pure interval arithmetic)",
                "byte layout equality of writer and reader beyond the pairing clauses above",
